@@ -47,9 +47,9 @@ func init() {
 			"a stored empty value may read back as nil or empty (convention not part of the statement); absence is Get==nil && Has==false"},
 		TimeoutSec: func(t string) int {
 			if t == ev.Thorough {
-				return 3000
+				return 7200
 			}
-			return 300
+			return 600
 		},
 		Run: run,
 	})
